@@ -167,6 +167,13 @@ func Gen(r *rand.Rand, cfg Cfg) (*Program, []string) {
 			ipool = nil
 		}
 		paths := []string{"/inc/t1.jet", "/inc/sub/t2.jet", "/t3.jet"}
+		if r.Intn(2) == 0 {
+			// the same base name in two directories: "t3.jet" spelt relative to /inc/t1.jet is not /t3.jet
+			paths = []string{"/inc/t1.jet", "/t3.jet", "/inc/t3.jet"}
+			if r.Intn(2) == 0 {
+				paths = []string{"/inc/t1.jet", "/inc/t3.jet", "/t3.jet"}
+			}
+		}
 		for i := 0; i < 1+r.Intn(3); i++ {
 			pl := mk(paths[i])
 			pl.defs = subset(ipool, 2)
